@@ -185,10 +185,11 @@ class StmtMixin:
         if isinstance(s.op, ast.Add):
             # list += seq mutates in place
             out = []
-            for s2, (a, b) in self.ev_list([self._as_load(s.target), s.value], st):
+            for s2, vs in self.ev_list([self._as_load(s.target), s.value], st):
                 if s2.status != "run":
                     out.append(s2)
                     continue
+                a, b = vs
                 if a.k == "ref" and a.cls == "list":
                     self.on_list_extend(s2, a, b, s)
                     s2.set_items(a.t, z3.Concat(s2.items(a.t), self.as_seq(b, s2)))
@@ -200,10 +201,11 @@ class StmtMixin:
             return out
         if isinstance(s.op, ast.BitOr):
             out = []
-            for s2, (a, b) in self.ev_list([self._as_load(s.target), s.value], st):
+            for s2, vs in self.ev_list([self._as_load(s.target), s.value], st):
                 if s2.status != "run":
                     out.append(s2)
                     continue
+                a, b = vs
                 out += self.set_union_inplace(a, b, s2, s)
             return out
         out = []
